@@ -103,3 +103,9 @@ Proof. unfold in_ids. apply mem_false. Qed.
 
 Lemma ids_app l1 l2 : ids (l1 ++ l2) = ids l1 ++ ids l2.
 Proof. unfold ids. apply map_app. Qed.
+
+Lemma filter_all_false_d {A} (p : A -> bool) l : (forall x, In x l -> p x = false) -> filter p l = [].
+Proof.
+  induction l as [|a l IH]; simpl; intro H; [reflexivity|].
+  rewrite (H a (or_introl eq_refl)). apply IH. intros x Hx. apply H. right; exact Hx.
+Qed.
